@@ -3,7 +3,7 @@
 import json, os, subprocess, sys, glob
 ROOT = os.path.dirname(os.path.dirname(os.path.abspath(__file__)))
 EXTRA = {'C02-1': ['C22'], 'C22-1': ['C02', 'C01'], 'C09-2': ['C07'], 'C20-1': ['C02'], 'C18-2': ['C21'],
-         'C02-3': ['C17'], 'C02-4': ['C17'], 'C12-4': ['C11'], 'C17-4': ['C02'], 'C18-4': ['C22'], 'C27-4': ['C28']}
+         'C02-3': ['C17'], 'C02-4': ['C17'], 'C12-4': ['C11'], 'C17-4': ['C02'], 'C18-4': ['C22'], 'C27-4': ['C28'], 'C01-6': ['C17', 'C02']}
 only = sys.argv[1:]
 for d in sorted(glob.glob(os.path.join(ROOT, 'seeded', '*'))):
     name = os.path.basename(d)
